@@ -453,8 +453,10 @@ class NDNApp:
         pt.pit_token = pit_token
         pt_wire = pt.encode()
         frag_l = len(data)
-        lp_l = len(pt_wire) + enc.get_tl_num_size(ndnlp.LpTypeNumber.FRAGMENT) + enc.get_tl_num_size(frag_l)
-        wire_l = enc.get_tl_num_size(ndnlp.LpTypeNumber.LP_PACKET) + enc.get_tl_num_size(lp_l) + lp_l
+        hdr_l = len(pt_wire) + enc.get_tl_num_size(ndnlp.LpTypeNumber.FRAGMENT) + enc.get_tl_num_size(frag_l)
+        # The LpPacket Length also covers the Data bytes, which are sent right after this header
+        lp_l = hdr_l + frag_l
+        wire_l = enc.get_tl_num_size(ndnlp.LpTypeNumber.LP_PACKET) + enc.get_tl_num_size(lp_l) + hdr_l
         wire = bytearray(wire_l)
         pos = 0
         pos += enc.write_tl_num(ndnlp.LpTypeNumber.LP_PACKET, wire, pos)
